@@ -51,7 +51,6 @@ Inductive role := Client | Server.
 Inductive exn :=
 | EH2ProtocolError     (* h2.reset_stream on an h2 connection that is already CLOSED *)
 | EH2StreamClosed      (* h2.reset_stream on a stream that is already closed (reset by the peer / by h2) *)
-| EKeyError            (* server Handler.cancel: self._tasks.pop(stream) *)
 | EAttributeError      (* handler reads a field the event class does not have; flush on a deleted transport *)
 | EValueError          (* h2.acknowledge_received_data: negative size / stream id <= 0 *)
 | EUnknownHandler.     (* the generated table names a method this model has no transcription of *)
@@ -269,7 +268,8 @@ Definition set_eof (r : srec) : srec :=
 (* ---- handler operations *)
 Definition live_task (sid : Z) (t : trec) : bool := (t_sid t =? sid) && t_live t.
 Definition has_live_task (sid : Z) (h : hstate) : bool := existsb (live_task sid) (h_tasks h).
-(* server Handler.cancel(stream): task = self._tasks.pop(stream); task.cancel(); self._cancelled.add(task) *)
+(* server Handler.cancel(stream): the task of the stream, if it is still in _tasks, leaves _tasks, is
+   cancelled and joins _cancelled; nothing happens otherwise (pop with a default) *)
 Fixpoint pop_task (sid : Z) (l : list trec) : list trec :=
   match l with
   | [] => []
@@ -449,9 +449,11 @@ Definition process_stream_reset (s : state) (e : event) : result :=
                 let s1 := set_reg s (upd sid (terminated why r) (st_reg s)) in
                 match st_role s with
                 | Client => Ok s1                                    (* Handler.cancel: pass *)
-                | Server => if has_live_task sid (st_h s1)
-                            then Ok (set_h s1 (mk_hstate (h_flag (st_h s1)) (pop_task sid (h_tasks (st_h s1)))))
-                            else Raises EKeyError                    (* self._tasks.pop(stream) *)
+                | Server =>
+                    (* server Handler.cancel: task = self._tasks.pop(stream, None)
+                                              if task is not None: task.cancel(); self._cancelled.add(task)
+                       pop_task leaves the table alone when the stream has no task in _tasks *)
+                    Ok (set_h s1 (mk_hstate (h_flag (st_h s1)) (pop_task sid (h_tasks (st_h s1)))))
                 end
             | _, _ => Raises EAttributeError
             end
@@ -603,18 +605,8 @@ Fixpoint run (s : state) (h : list input) : result :=
    pre-state *)
 (* a live processor has a live transport (close() is the only modelled way to close either) *)
 Definition inv_b (s : state) : bool := st_closed s || negb (st_tclosed s).
-(* server: every registered stream still has its task in _tasks, unless a StreamReset for it was
-   seen (`seen`) -- in which case h2 sends no second one *)
-Definition sinv_b (seen : list Z) (s : state) : bool :=
-  forallb (fun kv => has_live_task (fst kv) (st_h s) || existsb (Z.eqb (fst kv)) seen) (st_reg s).
-
-(* the h2 discipline on a whole history: stream ids of StreamReset events / RequestReceived events *)
-Definition reset_id (e : event) : list Z := match e with StreamReset sid _ _ => [sid] | _ => [] end.
-Definition request_id (e : event) : list Z := match e with RequestReceived sid => [sid] | _ => [] end.
 Definition events_of (i : input) : list event :=
   match i with IData (H2Events evs) => evs | _ => [] end.
-Definition resets_of (h : list input) : list Z := flat_map (fun i => flat_map reset_id (events_of i)) h.
-Definition requests_of (h : list input) : list Z := flat_map (fun i => flat_map request_id (events_of i)) h.
 Definition input_wf (i : input) : bool := forallb event_wf (events_of i).
 
 (* shutdown predicates *)
